@@ -3,6 +3,7 @@
 
 mod c06;
 mod c10;
+mod c16;
 mod corpus;
 mod entropy;
 mod model;
@@ -49,6 +50,8 @@ fn main() {
             match prop.as_str() {
                 "C06" => c06::check(&ctx),
                 "C10" => c10::check(&ctx),
+                "C16" => c16::check(&ctx, c16::Prop::C16),
+                "C11" => c16::check(&ctx, c16::Prop::C11),
                 _ => usage(),
             }
         }
@@ -70,6 +73,7 @@ fn main() {
             match doc["engine"].as_str() {
                 Some("c06") => c06::replay(&doc),
                 Some("c10") => c10::replay(&doc),
+                Some("c16") => c16::replay(&doc),
                 _ => {
                     eprintln!("HARNESS ERROR: unknown engine in replay file");
                     2
